@@ -156,6 +156,7 @@ package http
 //@ func (*mux).Handle
 //@   params m method pattern handler
 //@   property C16 C20 C02
+//@   locals wildcards:[]string middleware:func(http.Handler)http.Handler
 //@   requires m != nil && m.wildcards != nil && m.Router != nil
 //@   requires select(lockHeld, addr(m.mu)) == 0
 //@   let rt = m.Router
